@@ -596,7 +596,14 @@ class CastUnmarshaller(AbstractUnmarshaller[T]):
         if isinstance(decoded, self.t):
             return decoded
         # Cast the decoded value to the type.
-        return self.caster(decoded)
+        try:
+            return self.caster(decoded)
+        except (ValueError, TypeError):
+            # The text may have been meant literally (e.g. the path or enum value "1").
+            text = serdes.decode(val)
+            if text is decoded or not isinstance(text, str):
+                raise
+            return self.caster(text)
 
 
 PathUnmarshaller = CastUnmarshaller[pathlib.Path]
